@@ -417,7 +417,7 @@ impl KotoVm {
 
         let old_frame_count = self.call_stack.len();
 
-        self.call_callable(
+        if let Err(error) = self.call_callable(
             CallInfo {
                 result_register: Some(result_register),
                 frame_base,
@@ -427,7 +427,11 @@ impl KotoVm {
                 packed_arg_count: 0,
             },
             function,
-        )?;
+        ) {
+            // The registers that were set up for the call need to be removed again
+            self.truncate_registers(result_register);
+            return Err(error);
+        }
 
         let result = if self.call_stack.len() == old_frame_count {
             // If the call stack is the same size as before calling call_callable,
